@@ -24,14 +24,16 @@ CONSTANTS
     CleanupReservation, \* add: remove the empty reservation when the operation fails before the rename
     MayFault            \* explore single system-call failures
 
-VARIABLES pc, faultAt
+VARIABLES pc, faultAt,
+          rpc, rino, rsaw     \* a concurrent reader in another process (Authenticate: stat .admin, stat .user, open, read)
 
-svars == <<fsvars, pc, faultAt>>
+svars == <<fsvars, pc, faultAt, rpc, rino, rsaw>>
 
 Target == IF WriteInPlace THEN "F" ELSE "T"
 
-Goto(l) == pc' = l /\ UNCHANGED faultAt
-FaultHere(l) == MayFault /\ faultAt = "none" /\ faultAt' = pc /\ pc' = l /\ UNCHANGED fsvars
+RUnch == UNCHANGED <<rpc, rino, rsaw>>
+Goto(l) == pc' = l /\ UNCHANGED faultAt /\ RUnch
+FaultHere(l) == MayFault /\ faultAt = "none" /\ faultAt' = pc /\ pc' = l /\ UNCHANGED fsvars /\ RUnch
 
 Exists(n) == vdir[n] # 0
 
@@ -59,7 +61,7 @@ WMkTmp ==   \* MkdirAll(.tmp) + CreateTemp
 WLine ==    \* the new record line
     /\ pc = "writeline"
     /\ \/ SysWrite(Target, IF ctx.hasAux THEN "torn" ELSE "new") /\ Goto(IF ctx.hasAux THEN "copyaux" ELSE "sync")
-       \/ SysWrite(Target, "torn") /\ MayFault /\ faultAt = "none" /\ faultAt' = pc /\ pc' = "cleanup"  \* short write
+       \/ SysWrite(Target, "torn") /\ MayFault /\ faultAt = "none" /\ faultAt' = pc /\ pc' = "cleanup" /\ RUnch  \* short write
        \/ FaultHere("cleanup")
 
 WAux ==     \* copy the auxiliary lines of the old file
@@ -89,12 +91,17 @@ ReservationToClean == /\ CleanupReservation /\ ctx.op = "add" /\ ~ctx.hadOld
                       /\ Exists("F") /\ vdata[vdir["F"]] = "empty"
 WCleanup == \* deferred os.Remove(tmp) on the error path (+ reservation clean-up if the design has it)
     /\ pc = "cleanup"
-    /\ \/ Exists("T") /\ SysUnlink("T") /\ UNCHANGED <<pc, faultAt>>
-       \/ ~Exists("T") /\ ReservationToClean /\ SysUnlink("F") /\ UNCHANGED <<pc, faultAt>>
+    /\ \/ Exists("T") /\ SysUnlink("T") /\ UNCHANGED <<pc, faultAt>> /\ RUnch
+       \/ ~Exists("T") /\ ReservationToClean /\ SysUnlink("F") /\ UNCHANGED <<pc, faultAt>> /\ RUnch
        \/ ~Exists("T") /\ ~ReservationToClean /\ UNCHANGED fsvars /\ Goto("fail")
 
 WOk   == pc = "ok"   /\ Return("ok")   /\ Goto("done")
 WFail == pc = "fail" /\ Return("fail") /\ Goto("done")
+
+(* C08: concurrent readers in other processes see the same three possibilities *)
+ReaderSeesWhole ==
+    rpc = "done" => \/ rsaw \in {"nothing", "old", "new"}
+                    \/ rsaw = "empty" /\ ctx.op = "add"
 
 -----------------------------------------------------------------------------
 (* set-admin: F is the current name, G the requested one                    *)
@@ -122,16 +129,37 @@ RSyncDir ==
     /\ \/ SysFsyncDir /\ Goto("ok")
        \/ FaultHere("ok")
 
-Done == pc = "done" /\ UNCHANGED svars
+-----------------------------------------------------------------------------
+(* A reader in another process, one system call at a time, interleaved      *)
+(* anywhere with the writer: it looks for <user>.admin (G for add/update:   *)
+(* never there), then <user>.user (F), opens what it found and reads the    *)
+(* whole file.  What it reads is the content of the inode it opened *at the *)
+(* time of the read*.                                                       *)
+ReaderStat ==
+    /\ rpc = "stat" /\ UNCHANGED <<fsvars, pc, faultAt, rsaw>>
+    /\ IF vdir["G"] # 0 THEN rpc' = "open" /\ rino' = "G"
+       ELSE IF vdir["F"] # 0 THEN rpc' = "open" /\ rino' = "F"
+       ELSE rpc' = "done" /\ rino' = "none"
+ReaderOpen ==      \* open by name: the name may have been replaced or removed since the stat
+    /\ rpc = "open" /\ UNCHANGED <<fsvars, pc, faultAt, rsaw>>
+    /\ IF vdir[rino] # 0 THEN rpc' = "read" /\ rino' = vdir[rino]
+       ELSE rpc' = "done" /\ rino' = "none"
+ReaderRead ==
+    /\ rpc = "read" /\ UNCHANGED <<fsvars, pc, faultAt, rino>>
+    /\ rsaw' = vdata[rino] /\ rpc' = "done"
+Reader == ReaderStat \/ ReaderOpen \/ ReaderRead
+
+Done == pc = "done" /\ rpc = "done" /\ UNCHANGED svars
 
 Next ==
     \/ (ctx.op \in {"add", "update"} /\
           (WStart \/ WOpen \/ WMkTmp \/ WLine \/ WAux \/ WSync \/ WRename \/ WSyncDir \/ WCleanup))
     \/ (ctx.op = "setadmin" /\ (SStart \/ SRename \/ SSyncDir))
     \/ (ctx.op = "remove" /\ (RStart \/ RUnlink \/ RSyncDir))
-    \/ WOk \/ WFail \/ Done
+    \/ WOk \/ WFail \/ Done \/ Reader
 
 Init == (\E c \in Contexts : FsInit(c)) /\ pc = "start" /\ faultAt = "none"
+        /\ rpc = "stat" /\ rino = "none" /\ rsaw = "nothing"
 Spec == Init /\ [][Next]_svars
 
 (* remove reports nothing, so a faulted remove that did not delete is not an acknowledged removal *)
